@@ -9,6 +9,7 @@ Block:
   arg <name> <val>              (values passed by the caller; absent = None)
   npop <val>                    (population_size after __init__'s normalisation)
   computed <val>                (preprocess_ts: the interval list it derives itself)
+  extra <name> <val>            (preprocess_ts: the caller's **kwargs, in call order)
   end
 Values: N | B0 | B1 | I<int> | F<16 hex> | S<hex utf-8> | J<hex of canonical JSON>.
 Reply: `<id> <row> ...`; an old row is its id, a new row is `NEW:k=v,k=v,...` (dict order).
@@ -68,7 +69,12 @@ def runCase (blk : List (List String)) : Option String := do
                     && mi.runParams.contains kv.1)
         (kv.1, kv.2, lit)))
     else if entry == "preprocess_ts" then
-      pure ((preprocessParameters preprocessRecorded passed computed).map (fun kv => (kv.1, kv.2, kv.1 == "command")))
+      let extras := (blk.filter (fun l => l.head? = some "extra")).filterMap (fun l => match l with
+        | [_, k, v] => (parseP v).map (fun x => (k, x))
+        | _ => none)
+      let extraVal : String → PVal := fun k => ((extras.find? (fun p => p.1 == k)).map Prod.snd).getD PVal.none
+      pure ((preprocessParameters preprocessRecorded preprocessRecordsVarKw passed computed (extras.map Prod.fst) extraVal).map
+        (fun kv => (kv.1, kv.2, kv.1 == "command")))
     else
       pure [("command", PVal.str splitCommand, true)]
   let ps ← params
